@@ -866,6 +866,32 @@ theorem pfu_unit_spec (f : Freq) (a b : Int) :
       unfold pyRangeLen; simp; intro h'; omega
     simp [pyRange, hn]
 
+/-- **Direction.** A span is `forward` exactly when its step is positive; reversal flips the direction of every span
+with a non-zero step. -/
+theorem direction_spec (s : Span) (hs : s.step ≠ 0) :
+    (s.direction = true ↔ 0 < s.step) ∧ s.reverse.direction = !s.direction := by
+  simp only [Span.direction, Span.reverse, decide_eq_true_eq, gt_iff_lt]
+  refine ⟨trivial, ?_⟩
+  by_cases h : 0 < s.step
+  · simp [h]; omega
+  · simp [h]; omega
+
+/-- **The direction is the direction of the enumeration**: consecutive elements of a resolved span increase strictly in a
+forward span and decrease strictly in a backward one. -/
+theorem direction_is_enumeration_order (f : Freq) (a b step : Int) (hs : step ≠ 0) (l : List Int)
+    (h : (⟨.res ⟨f, a⟩, .res ⟨f, b⟩, step⟩ : Span).serials = .ok (some l)) (i : Nat) (hi : i + 1 < l.length) :
+    ((⟨.res ⟨f, a⟩, .res ⟨f, b⟩, step⟩ : Span).direction = true → l[i] < l[i + 1]) ∧
+    ((⟨.res ⟨f, a⟩, .res ⟨f, b⟩, step⟩ : Span).direction = false → l[i + 1] < l[i]) := by
+  simp [Span.serials, hs, pure, Except.pure] at h
+  subst h
+  simp only [pyRange_getElem, Span.direction, decide_eq_true_eq, decide_eq_false_iff_not, gt_iff_lt]
+  have e : ((i + 1 : Nat) : Int) * step = (i : Int) * step + step := by
+    rw [Int.natCast_add, Int.add_mul]; simp
+  rw [e]
+  constructor
+  · intro h; omega
+  · intro h; omega
+
 /-! ## 6b. Simulation frames: short span ↔ long span (`spans_from_short_span`, `spans_from_long_span`, `extend_span`) -/
 
 /-- **Short → long.** For one frequency and `a ≤ b` the call succeeds; the short span is exactly `a … b`, the long
